@@ -431,7 +431,8 @@ STATE_WORDS = ['Idle', 'Active', 'Done', 'Open', 'Closed', 'HTTPServer', 'IOErro
                'Dn', 'L', 'M', 'N', 'Wait', 'Ready', 'Busy', 'ParseXML', 'Mid', 'Deep', 'Far', 'R2D2', 'Ab', 'AbC']
 SUPER_WORDS = ['Flight', 'Group', 'Outer', 'Inner', 'Net', 'P', 'W', 'Zone', 'Core', 'Shell', 'Top', 'Sub', 'GRP', 'Ring1']
 EVENT_WORDS = ['go', 'stop', 'launch', 'land', 'abort', 'tick', 'next', 'reset', 'a', 'b', 'x1', 'set_thrust',
-               'enter_half_open', 'e2', 'do_it', 'http_get', 'io', 'step', 'flip', 'ping', 'k_9', 'retry', 'fire']
+               'enter_half_open', 'e2', 'do_it', 'http_get', 'io', 'step', 'flip', 'ping', 'k_9', 'retry', 'fire',
+               'verify_2fa', 'retry_3x', 'go_4th_gear', 'phase_2_start', 'x_1_y2z']
 HOOK_WORDS = ['check', 'ok', 'ready', 'log', 'audit', 'pre', 'post', 'wrap', 'g1', 'g2', 'is_set', 'deny', 'tx',
               'fuel_ok', 'note', 'h', 'hk2', 'veto', 'warm', 'cool', 'gate', 'Trace', 'onEnter']
 TYPES = [['u32'], ['D'], ['Vec', '<', 'u8', '>'], ['(', 'u32', ',', 'u8', ')'], ['&', "'static", 'str'],
@@ -824,6 +825,9 @@ def mutations(d, rng):
                 m = _copy(d)
                 m[ei][1][bi][1][ti] = ('transition', [('from', list(t[1]) + ['Nowhere'], True) if t[0] == 'from' else t for t in e[1]])
                 out.append(('R10-source-undeclared', m))
+                m = _copy(d)
+                m[ei][1][bi][1][ti] = ('transition', [('from', ['Nowhere'] + list(t[1]), True) if t[0] == 'from' else t for t in e[1]])
+                out.append(('R10-source-undeclared-first', m))
                 # R11 two transitions applicable to the same leaf: duplicate a source, repeat the
                 # transition, or add an enclosing superstate / a nested leaf as a further source
                 srcs = [t[1] for t in e[1] if t[0] == 'from']
